@@ -81,7 +81,7 @@ def run(ctx):
     # ---------------------------------------------------------------- R2
     b = ctx.anchor("R2", "qrecovery::journal::rcvd::RcvdJournal::decode_pn")
     if b:
-        okb = [i for (i, j, rv, line) in agg_sites(b, r"^std::result::Result$", "Ok")]
+        okb = [i for (i, j, rv, line) in agg_sites(b, r"^core::result::Result$", "Ok")]
         gets = call_blocks(b, r"IndexDeque::get$")
         ctx.floor("R2", "decode_pn Ok sites", len(okb), 1)
         ctx.floor("R2", "decode_pn slot lookups", len(gets), 1)
